@@ -133,6 +133,13 @@ pub fn shapes() -> Vec<(&'static str, String)> {
             }
         }
     }
+    // data of a case clause are compared with eqv?: a freshly made list or vector is never eqv? to
+    // a datum of the same shape, the empty list always is
+    for (k, d) in [("(list 1 2)", "(1 2)"), ("(vector 1)", "#(1)"), ("(list)", "()"), ("(cdr (list 1))", "()"), ("(list 1)", "(1)"), ("1", "(1)"), ("'(1 2)", "1")] {
+        out.push(("case", format!("(case {} (({}) E1) (else E2))", k, d)));
+        out.push(("case", format!("(case {} ((0 {}) E1))", k, d)));
+        out.push(("case", format!("(case {} (({} 5) => F1) (else => F2))", k, d)));
+    }
     for k in ["2", "'a", "(- 3 1)"] {
         for c1 in cnon(1) {
             for c2 in cnon(2) {
@@ -340,6 +347,16 @@ pub fn cases(thorough: bool) -> Vec<Case> {
         "(let ((p E1)) (let ((p E2)) (set! p 0)) p)",
         "(let ((p E1)) (let ((g (lambda () (set! p (list p 'g))))) (let ((p E2)) (g) (list p))))",
         "(let ((p E1) (q E2)) (and (set! p q) #t) (or #f (set! q 0)) (list p q))",
+        // bodies with internal definitions: the definitions belong to the body's own scope, also
+        // when the binding list is empty
+        "(let () (define p E1) (list p q))",
+        "(let () (define p E1) (set! p (list p)) p)",
+        "(let* () (define q E1) (define (g) q) (list p (g)))",
+        "(let ((q E1)) (let () (define p q) (list p q)))",
+        "(let ((p E1)) (define q (list p)) (list p q))",
+        "(let* ((p E1) (q E2)) (define s (list p q)) s)",
+        "(let ((mk (lambda () (let () (define p 0) (lambda () (set! p (+ p 1)) p))))) (let ((c1 (mk)) (c2 (mk))) (list (c1) (c1) (c2) E1)))",
+        "(let ((mk (lambda () (let* () (define p 0) (lambda () (set! p (+ p 1)) p))))) (let* ((c1 (mk)) (c2 (mk))) (list (c1) (c2) (c2) E1)))",
     ] {
         let t = parse1(text);
         let form = instantiate(&t, &[], 0, None, None);
@@ -411,6 +428,20 @@ pub fn cases(thorough: bool) -> Vec<Case> {
             out.push(Case { forms: vec![wrapped], tags: vec![format!("form={}", fam), "hygiene".into(), format!("user-rebinds={}", id)] });
         }
     }
+    // (5) history facet: N derived-form uses that are rejected (no rule matches, also nested inside
+    // valid forms), then valid forms on the same interpreter and thread
+    for n in [10usize, 130, 300, 1100] {
+        for (fam, t, a) in &reps {
+            let form = instantiate(t, a, 0, None, None);
+            out.push(Case { forms: vec![form], tags: vec![format!("form={}", fam), format!("after-rejected-forms={}", n)] });
+        }
+    }
+    // the same with the valid form evaluated after EVERY rejected one (a failure that shows only
+    // at one particular count of earlier rejections, and heals itself, is still seen)
+    for (fam, t, a) in &reps {
+        let form = instantiate(t, a, 0, None, None);
+        out.push(Case { forms: vec![form], tags: vec![format!("form={}", fam), "probe-after-each-rejected-form=1200".into()] });
+    }
     // top-level begin containing definitions, then a reference from the next form
     for t in ["(begin (define z (tick 1 1)) (tick 2 z))", "(begin (define (zf a) (list a)) (tick 1 0))"] {
         let first = parse1(t);
@@ -428,10 +459,23 @@ pub struct CaseResult {
     pub class: String,
 }
 
+pub const REJECTED: &[&str] = &["(when)", "(let)", "(cond)", "(case)", "(let* 1)", "(unless)", "(let ((a 1)) (list (when)))", "(begin (cond))", "(let ((a)) a)", "(let loop ((i 0)) i)", "(and . 1)", "(let (a) a)"];
+
 pub fn judge(it: &mut Interp, forms: &[Sx], policy: Policy, quirks: Quirks) -> CaseResult {
+    judge_after(it, forms, policy, quirks, 0)
+}
+
+pub fn judge_after(it: &mut Interp, forms: &[Sx], policy: Policy, quirks: Quirks, rejected_before: usize) -> CaseResult {
     let mut m = Machine::new(policy);
     m.quirks = quirks;
     it.fresh_frame();
+    for k in 0..rejected_before {
+        let t = REJECTED[k % REJECTED.len()];
+        let o = it.eval(t);
+        if matches!(o, Outcome::Val(_)) {
+            return CaseResult { ok: false, expected: format!("{} is rejected", t), observed: format!("{}", o), obs_hash: 0, class: "accepted-malformed".into() };
+        }
+    }
     let (mut exp, mut obs) = (vec![], vec![]);
     let mut ok = true;
     let mut class = String::new();
@@ -465,7 +509,25 @@ fn sweep(cs: &[Case], policy: Policy) -> Acc {
         |_| Interp::new().expect("interpreter"),
         |it, acc, i| {
             let c = &cs[i as usize];
-            let r = judge(it, &c.forms, policy, Quirks::default());
+            let rejected_before: usize = c.tags.iter().find_map(|t| t.strip_prefix("after-rejected-forms=").and_then(|n| n.parse().ok())).unwrap_or(0);
+            let interleaved: usize = c.tags.iter().find_map(|t| t.strip_prefix("probe-after-each-rejected-form=").and_then(|n| n.parse().ok())).unwrap_or(0);
+            let mut r = judge_after(it, &c.forms, policy, Quirks::default(), rejected_before);
+            for k in 0..interleaved {
+                if !r.ok {
+                    break;
+                }
+                let o = it.eval(REJECTED[k % REJECTED.len()]);
+                if matches!(o, Outcome::Val(_)) {
+                    r.ok = false;
+                    r.observed = format!("{} accepted: {}", REJECTED[k % REJECTED.len()], o);
+                    break;
+                }
+                let again = judge_after(it, &c.forms, policy, Quirks::default(), 0);
+                if !again.ok {
+                    r = again;
+                    r.expected = format!("[after {} rejected forms] {}", k + 1, r.expected);
+                }
+            }
             acc.evals += 1;
             for t in &c.tags {
                 if !t.starts_with("user-") {
